@@ -8,8 +8,16 @@ RULE = ("case = (source matrix, target matrix, request). Matrices: 0..4 ECUs fro
         "definitions INT/STRING/FLOAT/ENUM drawn from a pool of 4 names shared by all three kinds (so equal names occur across "
         "kinds), each with or without a default; source and target share names with different defaults and different ENUM value "
         "lists; explicit attribute values on some objects. Requests: copy_frame by id (present / absent / already in target), "
-        "merge, copy_ecu_with_frames (glob, rx/tx/both, direct_ecu_only on/off), copy_signal (glob). Non-trivial = distinct case in "
-        "which the target changes.")
+        "merge, copy_ecu_with_frames (glob, rx/tx/both, direct_ecu_only on/off), copy_signal (glob). Globs cover the whole fnmatch "
+        "language and are derived from the names the source has: the plain name, '*', '?', character classes '[ab]', '[!a]', "
+        "ranges '[a-z]', a ']' inside a class, an unclosed '[', with and without a wildcard next to them; a plain ECU name is also "
+        "passed as the Ecu object, and a request without rx and tx also goes through copy_ecu itself. Defaults and explicit values "
+        "include texts that differ only in notation (numbers: '7' / '07' / '7.0' / '7e0', '1.5' / '1.50'; case: 'on' / 'On'; "
+        "no value / '' / 'None'); a second stream derives the target's definitions from the source's (same name, same or other "
+        "kind of object, default replaced by such a look-alike). A third stream makes histories: three matrices, up to three "
+        "earlier copies/merges between them (a matrix that received frames is a source later on, the same source is used twice), "
+        "every step judged as a case of its own on the objects that carry the history. Non-trivial = distinct case in which the "
+        "target changes.")
 PARTIAL = ["everything of a frame/signal/ECU that copying treats as a blob (layout, scaling, comment, value table) is compared as "
            "an opaque body string", "environment variables of merge are not modelled",
            "copy_signal and the direct_ecu_only clean-up are tied by correspondence only (no Spec predicate beyond 'source unchanged')"]
@@ -22,12 +30,14 @@ ECUS = ["E1", "E2", "Gw", "Body", "Diag"]
 IDS = [(0x10, False), (0x11, False), (0x18FEF100, True), (0x20, False), (0x10, True)]
 ANAMES = ["GenA", "AttrB", "Mode", "Note"]
 DEFS = {
-    "GenA": [("INT 0 100", ["5", "7", None, "0"]), ("INT 0 65535", ["7", "1"])],
-    "AttrB": [("STRING", ["x", "y", None, ""]), ("FLOAT 0 10", ["1.5", None])],
-    "Mode": [('ENUM "off","on","auto"', ["off", "on", None]), ('ENUM "on","eco"', ["on", "eco"]), ('ENUM "off","on"', ["off"])],
-    "Note": [("STRING", ["n1", None, "n2"])],
+    "GenA": [("INT 0 100", ["5", "7", None, "0", "05", "5.0", "0.0"]), ("INT 0 65535", ["7", "1", "7.0"])],
+    "AttrB": [("STRING", ["x", "y", None, "", "X", "1.5", "1.50"]), ("FLOAT 0 10", ["1.5", None, "1.50", "15e-1"])],
+    "Mode": [('ENUM "off","on","auto"', ["off", "on", None]), ('ENUM "on","eco"', ["on", "eco"]), ('ENUM "off","on"', ["off"]),
+             ('ENUM "Off","On"', ["On", "Off"])],
+    "Note": [("STRING", ["n1", None, "n2", "N1", "007", "7", "1e1", "10", "None"])],
 }
-VALUES = {"GenA": ["1", "5", "7", "42"], "AttrB": ["x", "z", "1.5"], "Mode": ["on", "off", "auto", "eco"], "Note": ["n1", "hello"]}
+VALUES = {"GenA": ["1", "5", "7", "42", "5.0", "07"], "AttrB": ["x", "z", "1.5", "1.50", "X"], "Mode": ["on", "off", "auto", "eco", "On"],
+          "Note": ["n1", "hello", "7", "007"]}
 
 
 def rand_defs(rng):
@@ -58,6 +68,127 @@ def gen_matrix(rng, tag):
     return {"ecus": ecus, "frames": frames, "free": [], "fd": rand_defs(rng), "sd": rand_defs(rng), "ed": rand_defs(rng)}
 
 
+def lookalike(rng, v):
+    """another text for 'the same' default: the same number in another notation, the same word in another case, nothing / '' / 'None'"""
+    if v is None:
+        return rng.choice(["", "None"])
+    if v == "":
+        return rng.choice([None, "0"])
+    try:
+        float(v)
+        number = True
+    except ValueError:
+        number = False
+    if number:
+        forms = ["0" + v, "+" + v]
+        if "e" not in v.lower():
+            forms.append(v + "e0")
+            forms.append(v + "0" if "." in v else v + ".0")
+        if v.isdigit():
+            forms.append(v + ".")
+        f = float(v)
+        forms.append(str(int(f)) if f.is_integer() else repr(f))
+        return rng.choice([x for x in forms if x != v])
+    forms = [v.upper(), v.lower(), v.capitalize(), v + v[-1], v[:-1], v + "_"]
+    return rng.choice([f for f in forms if f != v and f != ""] or [v + "_"])
+
+
+def enum_def(values):
+    return "ENUM " + ",".join('"%s"' % v for v in values)
+
+
+def twin_defs(rng, defs):
+    """definitions for the target derived from definitions of the source: same name; same or another variant of the definition;
+    the default is the source's, a look-alike of it, or any of the pool"""
+    out = []
+    for a, definition, kind, values, default in defs:
+        if rng.random() < 0.3:
+            continue
+        k = rng.random()
+        if k < 0.25:
+            definition, defaults = rng.choice(DEFS[a])
+            kind = definition.split(" ")[0]
+            values = [v.strip('"') for v in definition[5:].split(",")] if kind == "ENUM" else []
+            default = rng.choice(defaults)
+        elif k < 0.8:
+            default = lookalike(rng, default)
+            if kind == "ENUM" and default is not None and default not in values:
+                # an ENUM definition lists its default
+                values = list(values) + [default]
+                definition = enum_def(values)
+        out.append([a, definition, kind, list(values), default])
+    for d in rand_defs(rng):
+        if rng.random() < 0.3 and all(d[0] != o[0] for o in out):
+            out.append(d)
+    rng.shuffle(out)
+    return out
+
+
+def gen_twin(rng, src):
+    """a target whose definitions are near misses of the source's (per kind, and with the kinds crossed)"""
+    tgt = gen_matrix(rng, "t")
+    kinds = ["fd", "sd", "ed"]
+    frm = kinds if rng.random() < 0.75 else rng.sample(kinds, 3)
+    for k, f in zip(kinds, frm):
+        tgt[k] = twin_defs(rng, src[f])
+    return tgt
+
+
+GLOB_OTHERS = "12EGBDwaz9sy"
+
+
+def rand_glob(rng, names):
+    """a pattern of the fnmatch language built around one of the names"""
+    base = rng.choice(names)
+    pos = rng.randrange(len(base))
+    ch = base[pos]
+    other = rng.choice([c for c in GLOB_OTHERS if c != ch])
+
+    def cls():
+        k = rng.random()
+        if k < 0.30:
+            return "[" + "".join(rng.sample([ch, other], 2)) + "]"
+        if k < 0.42:
+            return "[!" + other + "]"
+        if k < 0.54:
+            return "[0-9]" if ch.isdigit() else "[a-z]" if ch.islower() else "[A-Z]"
+        if k < 0.62:
+            return "[!0-9]" if ch.isdigit() else "[!a-z]" if ch.islower() else "[!A-Z]"
+        if k < 0.72:
+            return "[" + other + "]"
+        if k < 0.80:
+            return "[!" + ch + "]"
+        if k < 0.86:
+            return "[]" + ch + "]"
+        if k < 0.93:
+            return "[" + ch + "]"
+        return "[" + other + ch.lower() + ch.upper() + "]"
+
+    k = rng.random()
+    if k < 0.10:
+        return base
+    if k < 0.55:
+        return base[:pos] + cls() + base[pos + 1:]
+    if k < 0.63:
+        return base[:pos] + "?" + base[pos + 1:]
+    if k < 0.70:
+        return base[:pos] + "*"
+    if k < 0.76:
+        return "*" + base[pos:]
+    if k < 0.82:
+        return base[:pos] + "[" + base[pos:]          # a '[' that is never closed stands for itself
+    if k < 0.90:
+        return base[:pos] + cls() + "*"
+    p2 = rng.randrange(len(base))
+    if p2 == pos:
+        return base[:pos] + cls() + base[pos + 1:]
+    lo, hi = min(pos, p2), max(pos, p2)
+    ch = base[lo]
+    first = cls()
+    ch = base[hi]
+    return base[:lo] + first + base[lo + 1:hi] + cls() + base[hi + 1:]
+
+
 def gen_req(rng, src, tgt):
     k = rng.random()
     if k < 0.5:
@@ -67,12 +198,57 @@ def gen_req(rng, src, tgt):
     if k < 0.68:
         return ["merge"]
     if k < 0.92:
-        return ["ecuframes", rng.choice(ECUS + ["E*", "*", "[GB]*", "Zz"]), rng.random() < 0.6, rng.random() < 0.6, rng.random() < 0.5]
+        if rng.random() < 0.5:
+            pat = rng.choice(ECUS + ["E*", "*", "[GB]*", "Zz"])
+        else:
+            pat = rand_glob(rng, [e[0] for e in src["ecus"]] or ECUS)
+        rx, tx, direct = rng.random() < 0.6, rng.random() < 0.6, rng.random() < 0.5
+        # how the request is made: the pattern as text; a plain name of the source also as the Ecu object;
+        # a request for the ECUs alone (no rx, no tx, nothing cleaned up) also as copy_ecu followed by update_ecu_list
+        via = "glob"
+        if any(e[0] == pat for e in src["ecus"]) and rng.random() < 0.5:
+            via = "obj"
+        if not rx and not tx and not direct and rng.random() < 0.6:
+            via = "ecu-" + via
+        return ["ecuframes", pat, rx, tx, direct, via]
     # observation (outside C12's statement): copy_signal raises TypeError when an ENUM signal define of the source has no
     # default and the copied signal has no explicit value (None is appended to the ENUM values); such sources are not used here
     if any(d[2] == "ENUM" and d[4] is None for d in src["sd"]):
         return ["merge"]
-    return ["signal", rng.choice(["s0", "s*", "s[12]", "nomatch"])]
+    if rng.random() < 0.5:
+        return ["signal", rng.choice(["s0", "s*", "s[12]", "nomatch"])]
+    return ["signal", rand_glob(rng, ["s0", "s1", "s2"])]
+
+
+NMATS = 3
+
+
+def gen_history(rng):
+    """three matrices and a sequence of copies/merges between them; every step is a case: source and target are described as they
+    are when the step starts, 'pre' tells how they got there (the observation replays it on real objects)"""
+    mats = [gen_matrix(rng, "s"), gen_matrix(rng, "t"), gen_matrix(rng, "u")]
+    if rng.random() < 0.4:
+        mats[1] = gen_twin(rng, mats[0])
+    world = [build(m) for m in mats]
+    steps = []
+    for _ in range(rng.randint(2, 4)):
+        si, ti = rng.sample(range(NMATS), 2)
+        if steps and rng.random() < 0.35:
+            si = steps[-1][1]          # what was just filled is the source now
+            ti = rng.choice([x for x in range(NMATS) if x != si])
+        elif steps and rng.random() < 0.3:
+            si, ti = steps[-1][0], steps[-1][1]   # the same pair again
+        s_desc, t_desc = snapshot(world[si]), snapshot(world[ti])
+        req = gen_req(rng, s_desc, t_desc)
+        c = {"src": s_desc, "tgt": t_desc, "req": req}
+        if steps:
+            c["pre"] = {"mats": mats, "steps": [list(s) for s in steps], "si": si, "ti": ti}
+        yield {"op": "copy", "c": c}
+        try:
+            apply_req(req, world[si], world[ti])
+        except Exception:
+            return
+        steps.append([si, ti, req])
 
 
 def gen(rng, tier, shard, nshards):
@@ -81,12 +257,22 @@ def gen(rng, tier, shard, nshards):
         src = gen_matrix(rng, "s")
         tgt = gen_matrix(rng, "t")
         yield {"op": "copy", "c": {"src": src, "tgt": tgt, "req": gen_req(rng, src, tgt)}}
+    # near-miss definitions: the target's definitions are derived from the source's
+    for _ in range({"quick": 1600, "thorough": 16000}[tier] // nshards):
+        src = gen_matrix(rng, "s")
+        tgt = gen_twin(rng, src)
+        yield {"op": "copy", "c": {"src": src, "tgt": tgt, "req": gen_req(rng, src, tgt)}}
+    # histories
+    for _ in range({"quick": 480, "thorough": 4800}[tier] // nshards):
+        for case in gen_history(rng):
+            yield case
 
 
 def neighbours(case, rng, shard, nshards):
     c = case["c"]
     for _ in range(150 // nshards + 1):
         yield {"op": "copy", "c": {"src": c["src"], "tgt": gen_matrix(rng, "t"), "req": c["req"]}}
+        yield {"op": "copy", "c": {"src": c["src"], "tgt": gen_twin(rng, c["src"]), "req": c["req"]}}
         yield {"op": "copy", "c": {"src": c["src"], "tgt": c["tgt"], "req": gen_req(rng, c["src"], c["tgt"])}}
 
 
@@ -114,6 +300,13 @@ def build(m):
                 s.add_attribute(a, v)
             fr.add_signal(s)
         db.add_frame(fr)
+    for sname, sbody, rx, sattrs in m.get("free", []):
+        lay, tag = sbody.split("|")
+        st, sz, le = (int(x) for x in lay.split(":"))
+        s = cm.Signal(sname, start_bit=st, size=sz, is_little_endian=bool(le), receivers=list(rx), comment=tag)
+        for a, v in sattrs:
+            s.add_attribute(a, v)
+        db.add_signal(s)
     return db
 
 
@@ -142,22 +335,48 @@ def canon_case(c):
     return c
 
 
-def observe(case):
-    c = case["c"]
-    src, tgt = build(c["src"]), build(c["tgt"])
-    req = c["req"]
-    res = None
+def apply_req(req, src, tgt):
+    """the request on the real objects; returns copy_frame's answer, "raised" for the declared refusal, else None"""
     try:
         if req[0] == "frame":
-            res = bool(canmatrix.copy.copy_frame(cm.ArbitrationId(req[1], req[2]), src, tgt))
+            return bool(canmatrix.copy.copy_frame(cm.ArbitrationId(req[1], req[2]), src, tgt))
         elif req[0] == "merge":
             tgt.merge([src])
         elif req[0] == "ecuframes":
-            canmatrix.copy.copy_ecu_with_frames(req[1], src, tgt, rx=req[2], tx=req[3], direct_ecu_only=req[4])
+            via = req[5] if len(req) > 5 else "glob"
+            what = req[1]
+            if via.endswith("obj"):
+                what = src.ecu_by_name(req[1])
+                if what is None:
+                    raise RuntimeError("request names the Ecu object %r, the source has none" % req[1])
+            if via.startswith("ecu-"):
+                if req[2] or req[3] or req[4]:
+                    raise RuntimeError("copy_ecu stands for a request without rx, tx and clean-up only")
+                canmatrix.copy.copy_ecu(what, src, tgt)
+                tgt.update_ecu_list()
+            else:
+                canmatrix.copy.copy_ecu_with_frames(what, src, tgt, rx=req[2], tx=req[3], direct_ecu_only=req[4])
         elif req[0] == "signal":
             canmatrix.copy.copy_signal(req[1], src, tgt)
     except AttributeError:
-        res = "raised"
+        return "raised"
+    return None
+
+
+def observe(case):
+    c = case["c"]
+    pre = c.get("pre")
+    if pre:
+        # the matrices get their history through the real code; the case describes source and target as they are now
+        world = [build(m) for m in pre["mats"]]
+        for si, ti, req in pre["steps"]:
+            apply_req(req, world[si], world[ti])
+        src, tgt = world[pre["si"]], world[pre["ti"]]
+        if snapshot(src) != c["src"] or snapshot(tgt) != c["tgt"]:
+            raise RuntimeError("the same sequence of copies gives other matrices than when the case was made")
+    else:
+        src, tgt = build(c["src"]), build(c["tgt"])
+    res = apply_req(c["req"], src, tgt)
     return {"res": res, "tgt": snapshot(tgt), "src": snapshot(src)}
 
 
@@ -180,6 +399,34 @@ def features(case, impl):
         yield "equal-named signal define in both"
     if names(c["src"], "fd") & names(c["tgt"], "ed"):
         yield "cross-kind equal name"
+    if c["req"][0] in ("ecuframes", "signal"):
+        pat = c["req"][1]
+        yield "glob:" + ("plain" if not any(x in pat for x in "*?[") else
+                         "class without wildcard" if "[" in pat and "]" in pat and "*" not in pat and "?" not in pat else
+                         "class with wildcard" if "[" in pat and "]" in pat else "unclosed [" if "[" in pat else "wildcard")
+    if c["req"][0] == "ecuframes":
+        yield "ecuframes:via=" + (c["req"][5] if len(c["req"]) > 5 else "glob")
+    for k in ("fd", "sd", "ed"):
+        td = {d[0]: d for d in c["tgt"][k]}
+        for d in c["src"][k]:
+            t = td.get(d[0])
+            if t is not None and t[4] != d[4]:
+                yield "equal-named define, defaults differ"
+                if t[4] is None or d[4] is None or t[4] == "" or d[4] == "":
+                    yield "equal-named define, defaults none/empty/other"
+                elif t[4].lower() == d[4].lower():
+                    yield "equal-named define, defaults differ in case only"
+                else:
+                    try:
+                        if float(t[4]) == float(d[4]):
+                            yield "equal-named define, defaults differ in notation of the number only"
+                    except ValueError:
+                        pass
+    yield "history:steps before=%d" % (len(c["pre"]["steps"]) if c.get("pre") else 0)
+    if c.get("pre") and any(s[1] == c["pre"]["si"] for s in c["pre"]["steps"]):
+        yield "history:the source received copies before"
+    if c.get("pre") and any(s[0] == c["pre"]["si"] and s[1] == c["pre"]["ti"] for s in c["pre"]["steps"]):
+        yield "history:same source and target as an earlier step"
 
 
 def nontrivial(case, impl):
@@ -188,6 +435,10 @@ def nontrivial(case, impl):
 
 def shrink_candidates(case):
     c = case["c"]
+    if c.get("pre"):
+        # first without the history (fresh objects built from the descriptions); a failure that needs the history is kept as it is
+        yield {"op": "copy", "c": {"src": c["src"], "tgt": c["tgt"], "req": c["req"]}}
+        return
     for key in ("src", "tgt"):
         m = c[key]
         for part in ("frames", "ecus", "fd", "sd", "ed"):
